@@ -65,7 +65,7 @@ def build(sel):
     if opt & 2:
         arr.set_annotation("occupancy", np.array([1.0, 0.5, 0.25, 1.0, 0.75, 0.5], dtype=np.float32))
     if opt & 4:
-        arr.set_annotation("charge", np.array([0, 1, -1, 0, 2, -2], dtype=int))
+        arr.set_annotation("charge", np.array([0, 12, -10, 1, 2, -2], dtype=int))        # two-digit charges included
     if opt & 8:
         arr.set_annotation("atom_id", np.array([7, 8, 9, 20, 21, 22], dtype=int))
         # entity numbers as they stand after a selection / reordering (not 1, 2, ... by first appearance)
